@@ -134,6 +134,7 @@ fn err_kind(e: &MemvidError) -> String {
             "chunk manifest length mismatch" => "manifest-len".into(),
             other => format!("invalid-frame:{}", other.replace(' ', "_")),
         },
+        MemvidError::ChecksumMismatch { .. } => "checksum".into(),
         other => format!("other:{}", other.to_string().replace(' ', "_").chars().take(60).collect::<String>()),
     }
 }
